@@ -70,6 +70,11 @@ Proof. exact lv_parse_sound. Qed.
 
 (* ---- consequences, stated for the Einsum grammar (the same hold for the other four: GrammarProofs.X_...) *)
 
+(* independent of insignificant whitespace *)
+Theorem C17_eq_ws_independent : forall e ws1 ws2, wf_einsum e = true -> blanks ws1 = true -> blanks ws2 = true ->
+  parse_eq (print_eq e ws1) = parse_eq (print_eq e ws2).
+Proof. exact eq_ws_independent. Qed.
+
 (* the text determines the structure: two different well-formed Einsums are never written the same way *)
 Theorem C17_eq_print_injective : forall a b ws1 ws2,
   wf_einsum a = true -> wf_einsum b = true -> blanks ws1 = true -> blanks ws2 = true ->
